@@ -1664,9 +1664,15 @@ func runScenario(seed int64, n int, out *bufio.Writer, kind string, suffix strin
 			h.connDown(c)
 		}
 		h.settle(40, 0)
-		h.nbSet([]op{{target: t, path: fam[1], del: true}}, false, false)
-		h.randomSteps(20, 0)
-		h.nbSet([]op{{target: t, path: fam[2], val: fmt.Sprintf("v%d", r.Intn(1000))}}, false, false)
+		if r.Intn(3) == 0 {
+			// variant: while the device is away the ONLY change of the target is rolled back (Configuration.Index returns
+			// to 0 while the applied values still hold the change): the re-push after the reconnect is still due
+			h.nbRollback(uint64(h.e.NumTx()))
+		} else {
+			h.nbSet([]op{{target: t, path: fam[1], del: true}}, false, false)
+			h.randomSteps(20, 0)
+			h.nbSet([]op{{target: t, path: fam[2], val: fmt.Sprintf("v%d", r.Intn(1000))}}, false, false)
+		}
 		h.settle(40, 0)
 		if r.Intn(2) == 0 {
 			// the first request of the re-push is answered PermissionDenied (the device has seen a higher election id for
